@@ -77,6 +77,11 @@ func (g *Exec) smallNum() *awk.Node {
 		return awk.NumN(2.5)
 	case 2:
 		return awk.NumN(float64(g.n(10, 100, "big")))
+	case 3:
+		if g.n(0, 2, "edgy") == 0 {
+			return g.edgeNum()
+		}
+		return awk.NumN(float64(g.n(0, 6, "small")))
 	default:
 		return awk.NumN(float64(g.n(0, 6, "small")))
 	}
@@ -95,9 +100,24 @@ func (g *Exec) fieldIndex() *awk.Node {
 	}
 }
 
+// edgeNums are literals at and beyond the edges of exact integer / int64
+// representation: constant folding of subscripts, field indexes and number to
+// string conversion must agree with what happens at run time.
+var edgeNums = []float64{0.1, 1e-5, 1e6, 999999.5, 1e15, 9007199254740992, 1e18, 9223372036854774784, 9223372036854775808, 1e19, 18446744073709551616, 1e30, 1e300}
+
+func (g *Exec) edgeNum() *awk.Node {
+	n := edgeNums[g.n(0, len(edgeNums)-1, "edge")]
+	if g.n(0, 3, "eneg") == 0 {
+		return awk.UnaryN("-", awk.NumN(n))
+	}
+	return awk.NumN(n)
+}
+
 func (g *Exec) subscript(d int) []*awk.Node {
 	one := func() *awk.Node {
-		switch g.n(0, 5, "subk") {
+		switch g.n(0, 6, "subk") {
+		case 6:
+			return g.edgeNum()
 		case 0:
 			return awk.StrN(g.pick([]string{"k", "a", "1", "x"}, "subs"))
 		case 1:
